@@ -1,7 +1,7 @@
 SPECIFICATION Spec
 CONSTANTS K = 2
-          Vals = {"x", "y"}
-          Ranges = {12, 22}
+          Vals = {"x"}
+          Ranges = {12, 22, 11}
           WithBatch = TRUE
           Mode = "edge"
           Depth = 0
